@@ -26,7 +26,8 @@ TRUSTED_BASE = [
     "Eigen 3.4.0 kernels (matrix*vector, dot, maxCoeff first-index tie-break, sparse->dense conversion) modelled by their mathematical meaning",
     "lp_solve is not modelled; LinearProgramming results are checked by the exact Bellman residual of the returned values (1e-5 rel)",
     "PolicyIteration: outer loop modelled on explicit fuel (pi_run) and compared with the code on short tolerance-free evaluations; "
-    "for converged runs its returned Q is checked by the exact Bellman residual (gamma*tol + tie slack), proved only structurally (pi_fixpoint_partial)",
+    "pi_fixpoint is proved under the premise that the evaluated QGreedy matrix has rows summing to one; termination is not proved "
+    "(pi_terminates_partial = fuel independence); converged runs are also checked by the exact Bellman residual at run time",
     "equalToleranceSmall is modelled as the rational 1/10^6 (the double 1e-6 differs by 4.5e-23)",
 ]
 ASSUMPTIONS = [
@@ -109,7 +110,12 @@ def gen_dy(rng, kind):
             for a in range(A):
                 row = [0] * S
                 i1, i2 = rng.sample(range(S), 2)
-                if rng.random() < 0.7: row[i1] = 1; row[i2] = D - 1
+                u = rng.random()
+                if u < 0.55: row[i1] = 1; row[i2] = D - 1
+                elif u < 0.7 and S > 2:
+                    # two dropped entries: 2*2^-21 < 1e-6 is still accepted, 2*2^-20 > 1e-6 is rejected by SparseModel
+                    i3 = rng.choice([i for i in range(S) if i not in (i1, i2)])
+                    w = rng.choice([1, 2]); row[i1] = w; row[i3] = w; row[i2] = D - 2 * w
                 else: row[i1] = D
                 t[s][a] = row
     else:
